@@ -141,6 +141,33 @@ def r3_key(ctx, docs):
         k = e.args[2] if len(e.args) > 2 else None
         ok = k is not None and any(contains(a, lambda y: y == ('param', 'params')) for a in alts(k)) and all(contains(a, lambda y: y == ('param', 'params')) or (a[0] == 'bin' and a[2][0] == 'const') for a in alts(k))
         ctx.check(ok, 'C11.R3', f'{func_label(f)}|key-reaches-native', e.loc, 'the native chunker is keyed, on every call, with the 16-byte expansion of this call\'s `params` (or the fixed default when none is given)', f'the native chunker key is {show(k, limit=100) if k else None}: it does not derive from this call\'s params')
+    # the 16-byte expansion only repeats and truncates the caller's key
+    pname = 'params'
+    bad = []
+    for a in ast.walk(f.node):
+        tgt = None
+        if isinstance(a, ast.Assign) and any(isinstance(t, ast.Name) and t.id == pname for t in a.targets):
+            v = a.value
+            okv = (
+                (isinstance(v, ast.BinOp) and isinstance(v.op, ast.Mult) and isinstance(v.left, ast.Constant) and isinstance(v.left.value, bytes))
+                or (isinstance(v, ast.Subscript) and isinstance(v.value, ast.Name) and v.value.id == pname and isinstance(v.slice, ast.Slice) and v.slice.lower is None and isinstance(v.slice.upper, ast.Constant))
+                or (isinstance(v, ast.Call) and dotted(v.func) in ('bytes', 'bytearray') and len(v.args) == 1 and isinstance(v.args[0], ast.Name) and v.args[0].id == pname)
+            )
+            if not okv:
+                bad.append(a)
+        elif isinstance(a, ast.AugAssign) and isinstance(a.target, ast.Name) and a.target.id == pname:
+            if not (isinstance(a.op, ast.Add) and isinstance(a.value, ast.Name) and a.value.id == pname):
+                bad.append(a)
+        elif isinstance(a, ast.Assign) and any(isinstance(t, ast.Subscript) and isinstance(t.value, ast.Name) and t.value.id == pname for t in a.targets):
+            bad.append(a)
+    ctx.check(
+        not bad,
+        'C11.R3',
+        f'{func_label(f)}|key-expansion-lossless',
+        loc(f, bad[0]) if bad else loc(f, f.node),
+        'the chunker key is only repeated / truncated to 16 bytes before it reaches the native code (or replaced by the fixed default when absent)',
+        f'the chunker key is rewritten (`{src(bad[0], 60) if bad else ""}`) before it reaches the native code: distinct keys can collapse to the same effective key',
+    )
     # chunkify passes the family key (shared with C07.R2)
     ck = ctx.corpus.func('repository', 'RepositoryProps.chunkify')
     ev = Evaluator(ctx.corpus, modes={'encrypted': True}, depth=3)
